@@ -101,11 +101,93 @@ theorem interrupt_bounded (B : Nat) (cs : List Choice) : ∀ (s : State), Ready 
         simp only [List.length_cons] at hd; omega
       · rw [runT_terminal r hr]; exact hr
 
+/-- The state of `example_native_nested` when the request is complete: 3 steps deep in native code, inside a
+nested `vm()` loop. -/
+def readyNative : State :=
+  { pc := .native (some 3), paused := true, st := .interrupted, depth := 1, pending := true }
+
+theorem readyNative_reached :
+    run init [.thread .plain, .thread .nest, .thread .plain, .thread (.callNative 3), .intP, .intS]
+      = readyNative := by decide
+
+theorem readyNative_ready : Ready 3 readyNative := by
+  refine ⟨rfl, rfl, rfl, by decide, by decide, ?_⟩
+  intro k hk
+  have : k = 3 := by simp [readyNative] at hk; omega
+  omega
+
+/-- Non-vacuity of `ready_step` and `interrupt_bounded`: all hypotheses hold on `readyNative` (reachable,
+`B = 3`, `dist = 6`) with a tail that calls a primitive, enters a nested loop and calls native code again. -/
+example : (Ready 3 (stepT readyNative .plain) ∨ (stepT readyNative .plain).pc.terminal = true) ∧
+    dist 3 (stepT readyNative .plain).pc < dist 3 readyNative.pc :=
+  ready_step readyNative_ready (by decide) (by decide)
+
+example : (runT readyNative [.plain, .callPrim, .nest, .plain, .callNative 2, .plain]).pc.terminal = true :=
+  interrupt_bounded 3 _ readyNative readyNative_ready (by decide) (by decide)
+
+example : (runT readyNative [.plain, .callPrim, .nest, .plain, .callNative 2, .plain]).pc = .errored ∧
+    (runT readyNative [.plain, .callPrim, .nest, .plain, .callNative 2]).pc ≠ .errored := by decide
+
+theorem stepT_finished {s : State} {c : Choice} (h : (stepT s c).pc = .finished) :
+    s.pc = .finished ∨ c = .finish := by
+  cases hp : s.pc with
+  | exec =>
+    cases c <;> simp [stepT, hp] at h ⊢
+  | dispatch => simp only [stepT, hp] at h; split at h <;> simp at h
+  | sawPaused => simp only [stepT, hp] at h; split at h <;> simp at h
+  | native k =>
+    cases k with
+    | none => simp [stepT, hp] at h
+    | some k => cases k <;> simp [stepT, hp] at h
+  | spExit => simp only [stepT, hp] at h; split at h <;> simp at h
+  | spState => simp only [stepT, hp] at h; split at h <;> simp at h
+  | finished => exact Or.inl rfl
+  | roundP => simp [stepT, hp] at h
+  | roundS => simp [stepT, hp] at h
+  | roundBody => simp [stepT, hp] at h
+  | resP => simp [stepT, hp] at h
+  | resS => simp [stepT, hp] at h
+  | parked => simp [stepT, hp] at h
+  | errored => simp [stepT, hp] at h
+
+theorem runT_finished (cs : List Choice) : ∀ {s : State}, (runT s cs).pc = .finished →
+    s.pc = .finished ∨ Choice.finish ∈ cs := by
+  induction cs with
+  | nil => intro s h; exact Or.inl h
+  | cons c r ih =>
+    intro s h
+    simp only [runT] at h
+    rcases ih h with h1 | h1
+    · rcases stepT_finished h1 with h2 | h2
+      · exact Or.inl h2
+      · exact Or.inr (by simp [h2])
+    · exact Or.inr (by simp [h1])
+
+/-- **… stops with an error**: in `interrupt_bounded`, if the program does not finish by itself within those
+steps (no `finish` instruction among them), the evaluation returns the interrupt error. -/
+theorem interrupt_bounded_error (B : Nat) (cs : List Choice) (s : State) (h : Ready B s)
+    (hb : ∀ c ∈ cs, c.bounded B = true) (hd : dist B s.pc ≤ cs.length) (hnf : Choice.finish ∉ cs)
+    (hs : s.pc ≠ .finished) : (runT s cs).pc = .errored := by
+  have ht := interrupt_bounded B cs s h hb hd
+  cases hp : (runT s cs).pc <;> simp [hp, PC.terminal] at ht
+  · rfl
+  · rcases runT_finished cs hp with h1 | h1
+    · exact absurd h1 hs
+    · exact absurd h1 hnf
+
+example : (runT readyNative [.plain, .callPrim, .nest, .plain, .callNative 2, .plain]).pc = .errored :=
+  interrupt_bounded_error 3 _ readyNative readyNative_ready (by decide) (by decide) (by decide) (by decide)
+
 /-- With the request complete, a return means the interrupt error unless the program finished by itself:
 the poll never lets a ready thread fall through. -/
 theorem poll_delivers (s : State) (c c' : Choice) (hp : s.pc = .dispatch) (h1 : s.paused = true)
     (h2 : s.st = .interrupted) : (stepT (stepT s c) c').pc = .errored := by
   simp [stepT, hp, h1, h2]
+
+/-- Non-vacuity of `poll_delivers`: a reachable state at the poll with the request complete. -/
+example : (run init [.thread .plain, .thread .plain, .intP, .intS]).pc = .dispatch ∧
+    (stepT (stepT (run init [.thread .plain, .thread .plain, .intP, .intS]) .nest) .beginRound).pc = .errored :=
+  ⟨by decide, poll_delivers _ _ _ (by decide) (by decide) (by decide)⟩
 
 /-! ## The request is not lost — under the guard -/
 
@@ -226,6 +308,19 @@ theorem interrupt_not_lost_partial (sched : List Act) :
     (runG init sched).paused = true ∧
       ((runG init sched).st = .interrupted ∨ (runG init sched).hostMid = true) :=
   runG_inv sched (s := init) (by intro h; simp [init] at h)
+
+/-- Non-vacuity of `interrupt_not_lost_partial`: the hypothesis (`pending`) holds on guarded schedules — between
+the two stores of the request (second disjunct), after both (first disjunct), also with the thread in native
+code inside a nested loop, and after a complete round of the thread's own that ended before the request. -/
+example :
+    (runG init [.thread .plain, .thread .plain, .intP]).pending = true ∧
+    (runG init [.thread .plain, .thread .plain, .intP]).st = .running ∧
+    (runG init [.thread .plain, .thread .nest, .thread .plain, .thread (.callNative 3), .intP, .intS,
+                .thread .plain]).pending = true ∧
+    (runG init [.thread .plain, .thread .beginRound, .thread .plain, .thread .plain, .thread .plain,
+                .thread .plain, .thread .plain, .intP, .intS, .thread .plain]).pending = true ∧
+    (runG init [.thread .plain, .thread .beginRound, .thread .plain, .thread .plain, .thread .plain,
+                .thread .plain, .thread .plain, .intP, .intS, .thread .plain]).pc = .sawPaused := by decide
 
 /-- The lost interrupt (K17a): the request lands inside the thread's own round (here: between its
 `pause_for_safepoint()` and its `resume()`); `resume()` stores `paused = false, Running` unconditionally. -/
@@ -566,6 +661,40 @@ theorem interrupt_delivered_partial (sched : List Act) :
   · exact h1
   · rw [hm] at h1; cases h1
 
+/-- Non-vacuity of `interrupt_delivered_partial`: a `G2`-respecting schedule (every line accepted: `runG2 = run`)
+in which the request arrives while the thread is in the exit loop of a primitive's safepoint — the situation of
+K17c, with the thread's `state.load()` after the second store — reaches a state with the request pending and
+complete; the thread breaks out of the loop and the next poll raises the error. -/
+def primExit : List Act :=
+  [.thread .plain, .thread .callPrim, .intP, .thread .plain, .intS, .thread .plain]
+
+example : runG2 init primExit = run init primExit ∧ (runG2 init primExit).pending = true ∧
+    (runG2 init primExit).hostMid = false ∧ (runG2 init primExit).pc = .dispatch ∧
+    (runG2 init (primExit ++ [.thread .plain, .thread .plain])).pc = .errored := by decide
+
+/-- **Interruption end to end, under `G2`**: for every `G2`-respecting history of instructions, rounds, nested
+loops, native calls, requests, resumes and re-runs, if in the state reached a request is pending and complete
+and the thread is not inside a native region longer than `B` (or one without poll), then whatever it executes
+next (bounded choices: no round of its own, native regions ≤ `B`), the evaluation has returned after
+`dist B pc ≤ B + 5` further steps of the thread — with the interrupt error unless the program finishes first.
+(Host steps interleaved with those last `B + 5` thread steps are not part of the statement.) -/
+theorem interrupt_end_to_end_partial (B : Nat) (sched : List Act) (cs : List Choice) :
+    let s := runG2 init sched
+    s.pending = true → s.hostMid = false → s.pc ≠ .native none → (∀ k, s.pc = .native (some k) → k ≤ B) →
+    (∀ c ∈ cs, c.bounded B = true) → dist B s.pc ≤ cs.length →
+    (runT s cs).pc.terminal = true ∧
+    (s.pc ≠ .finished → Choice.finish ∉ cs → (runT s cs).pc = .errored) := by
+  intro s hp hm hn hk hb hd
+  obtain ⟨h1, h2⟩ := interrupt_delivered_partial sched
+  obtain ⟨a, b, c⟩ := h2 hp hm
+  have hr : Ready B s := ⟨a, b, c, hn, h1, hk⟩
+  exact ⟨interrupt_bounded B cs s hr hb hd, fun hs hnf => interrupt_bounded_error B cs s hr hb hd hnf hs⟩
+
+example : (runT (runG2 init primExit) [.plain, .plain]).pc = .errored :=
+  (interrupt_end_to_end_partial 0 primExit [.plain, .plain] (by decide) (by decide) (by decide)
+    (by intro k hk; rw [show (runG2 init primExit).pc = .dispatch by decide] at hk; cases hk)
+    (by decide) (by decide)).2 (by decide) (by decide)
+
 /-- The request that parks the thread (K17c): `paused` is stored, the thread — in the exit loop of a primitive's
 safepoint — loads `paused = true`, then `state = Running`, and parks; `Interrupted` is stored afterwards. -/
 def parkedForever : List Act :=
@@ -583,6 +712,9 @@ theorem parked_stays (cs : List Choice) (s : State) (h : s.pc = .parked) : (runT
   induction cs generalizing s with
   | nil => exact h
   | cons c r ih => simp only [runT]; apply ih; simp [stepT, h]
+
+example : (runT (run init parkedForever) [.plain, .callPrim, .finish, .beginRound]).pc = .parked :=
+  parked_stays _ _ parkedForever_parks.1
 
 /-- The full delivery statement is false for the code as it is. -/
 theorem not_interrupt_delivered :
@@ -613,7 +745,26 @@ theorem resume_usable (s : State) (he : s.pc = .errored) (c : Choice) :
     (stepT s' c).pc = .exec := by
   simp [run, step, he, stepT]
 
-/-! ## Non-vacuity -/
+/-- Non-vacuity of `resume_usable`: the errored state of `example_delivered`; the whole history — loop,
+request, error, `resume()`, second `run`, two more instructions — respects `G2`, and the second evaluation
+dispatches normally and can be interrupted again. -/
+def delivered : List Act :=
+  [.thread .plain, .thread .plain, .intP, .intS, .thread .plain, .thread .plain, .thread .plain]
+
+example : (run init delivered).pc = .errored ∧ (run init delivered).pending = false ∧
+    runG2 init (delivered ++ [.hresP, .hresS, .rerun, .thread .plain, .thread .plain]) =
+      run (run init delivered) [.hresP, .hresS, .rerun, .thread .plain, .thread .plain] ∧
+    (runG2 init (delivered ++ [.hresP, .hresS, .rerun, .thread .plain, .thread .plain])).pc = .dispatch ∧
+    (runG2 init (delivered ++ [.hresP, .hresS, .rerun, .thread .plain, .intP, .intS, .thread .plain,
+      .thread .plain, .thread .plain])).pc = .errored := by decide
+
+example : (stepT (run (run init delivered) [.hresP, .hresS, .rerun]) .plain).pc = .exec :=
+  (resume_usable (run init delivered) (by decide) .plain).2.2.2.2
+
+/-! ## Non-vacuity
+
+`example_delivered` and `example_native_nested` are TESTS of the model on two schedules (by `decide`), not
+general claims. -/
 
 /-- A request during an ordinary loop is delivered: poll, instruction, request, poll → error. -/
 theorem example_delivered :
@@ -626,5 +777,33 @@ theorem example_native_nested :
     (runG init [.thread .plain, .thread .nest, .thread .plain, .thread (.callNative 3), .intP, .intS,
                 .thread .plain, .thread .plain, .thread .plain, .thread .plain,
                 .thread .plain, .thread .plain]).pc = .errored := by decide
+
+/-! ## Clauses of the property not carried by a theorem
+
+* "whatever code is running: interpreted or native-compiled loops, loops inside higher-order library procedures,
+  transducers, handlers or wind thunks": the model has ONE dispatch loop with a depth counter for nested `vm()`
+  loops and an abstract native tier (`native (some k)` / `native none`).  That every one of those program shapes
+  is an instance — each callback of `map`/`fold`/`transduce`/`for-each`, each handler and wind thunk runs under
+  a loop that polls per instruction, no built-in loops on its own without re-entering the dispatch loop, errors
+  raised in callbacks are propagated — is carried only by the regenerated tables (`dispatch_loop_polls`,
+  `native_backedges_listed`, `trampoline_calls_once`, `iteration_errors_propagate`: `decide` over the extracted
+  sites) and the differential run.  Built-ins that run long without calling back (a sort of a huge list, a
+  blocking read) are not modelled: `callPrim` takes one step.
+* "for interrupt requests arriving at arbitrary times": only for the times the guards allow.  Excluded: a request
+  overlapping the thread's own `stop_threads()/resume_threads()` pair (every define / set! of a global, every
+  full collection — false there: `not_interrupt_not_lost`, K17a); a request whose two stores straddle the
+  `state.load()` of a safepoint exit loop (false: `not_interrupt_delivered`, K17c); a `resume()` before `run`
+  has returned.
+* "within a bounded number of further script steps": `B + 5` where `B` is a PARAMETER bounding the native
+  regions entered; for a native back-edge without poll there is no bound (`not_interrupt_bounded_native`,
+  K17b).  `interrupt_bounded` counts steps of the thread only: host steps (a second `interrupt()`) interleaved
+  with them, and more than one engine thread (requests to a thread parked in another thread's round: C15/C16),
+  are not part of the statement.
+* "with native code generation on and off": one abstract tier; which opcodes compile to what is the table.
+* "the engine can then be resumed and used normally": `resume_usable` is about the two flags, the pc and the
+  depth counter.  That the stack, the global table, open `dynamic-wind` extents, handlers and the heap of the
+  real engine are in a usable state after the error is not modelled (probe evaluations of the differential
+  run).
+* Wall-clock latency (`run_with_timeout`), Relaxed visibility of the two stores. -/
 
 end SteelVerif.C17
